@@ -225,6 +225,25 @@ def expandMeta (shape : List Int) (bs : Shape) (names : Names) :
   let nm : Names := names.map (fun l => List.replicate (sh.length - bs.length) none ++ l)
   pure (some (sh, nm, .expand sh bs.length))
 
+/-- the per-position rule both torch and the code implement: the size of output dim `i`, or `none` = reject -/
+def expandRule (bs : Shape) (shape : List Int) (i : Nat) : Option Nat :=
+  let v := shape.getD i 0
+  let lead := shape.length - bs.length
+  if i < lead then (if v < 0 then none else some v.toNat)
+  else
+    let old := bs.getD (i - lead) 0
+    if v = -1 then some old
+    else if v < 0 then none
+    else if old = 1 ∨ v = (old : Int) then some v.toNat
+    else none
+
+/-- the first phase of the code (`-1` keeps the existing size; other negatives rejected) as a per-position rule -/
+def resolveRule (bs : Shape) (shape : List Int) (i : Nat) : Option Nat :=
+  let v := shape.getD i 0
+  let off := shape.length - bs.length
+  if v = -1 ∧ i ≥ off then some (bs.getD (i - off) 0)
+  else if v < 0 then none else some v.toNat
+
 def opMeta : Op → Shape → Names → Except Err (Option (Shape × Names × LeafCall))
   | .permute dims => permuteMeta dims
   | .transpose d0 d1 => transposeMeta d0 d1
